@@ -16,6 +16,7 @@ type c14Step struct {
 	Args []string `json:"args"` // subcommand, options, positionals ({name} = pool file)
 	In   string   `json:"in"`   // pool id piped to stdin
 	Out  bool     `json:"out,omitempty"`
+	Aux  bool     `json:"aux,omitempty"` // another invocation sharing the cache directory (gts cache list / purge): run, not compared
 }
 
 type c14Case struct {
@@ -53,6 +54,10 @@ func c14Check(c c14Case) *Violation {
 	env := newCliEnv()
 	defer env.remove()
 	for i, s := range c.Steps {
+		if s.Aux {
+			env.run(expandArgs(s.Args), nil, false)
+			continue
+		}
 		if _, ok := pool[s.In]; !ok {
 			panic("harness: unknown pool input " + s.In)
 		}
@@ -78,6 +83,10 @@ func c14Classify(c c14Case) (bool, []string) {
 	labels := []string{fmt.Sprintf("steps=%d", len(c.Steps))}
 	nt := false
 	for i, s := range c.Steps {
+		if s.Aux {
+			labels = append(labels, "aux:"+strings.Join(s.Args, "-"))
+			continue
+		}
 		labels = append(labels, "cmd:"+s.Args[0])
 		if s.Out {
 			labels = append(labels, "-o")
@@ -86,7 +95,7 @@ func c14Classify(c c14Case) (bool, []string) {
 			labels = append(labels, "invalid-input")
 		}
 		for _, p := range c.Steps[:i] {
-			if p.Args[0] != s.Args[0] {
+			if p.Aux || p.Args[0] != s.Args[0] {
 				continue
 			}
 			switch {
@@ -167,6 +176,9 @@ func c14Gen(t *rapid.T) c14Case {
 		case 1, 2:
 			in = rapid.SampledFrom(c14Inputs).Draw(t, "in2")
 		}
+		if i > 0 && rapid.IntRange(0, 7).Draw(t, "aux") == 0 {
+			c.Steps = append(c.Steps, c14Step{Args: []string{"cache", rapid.SampledFrom([]string{"purge", "list", "path"}).Draw(t, "auxcmd")}, Aux: true})
+		}
 		v := vars[rapid.IntRange(0, len(vars)-1).Draw(t, "variant")]
 		c.Steps = append(c.Steps, c14Step{Args: append([]string{cmd}, v...), In: in, Out: rapid.IntRange(0, 4).Draw(t, "out") == 0})
 	}
@@ -204,6 +216,8 @@ func TestC14(t *testing.T) {
 				{Steps: []c14Step{sa("small", false), sa("small2", false), sa("small", false)}},
 				{Steps: []c14Step{sa("small", true), sa("small", false), sa("small", true)}},
 				{Steps: []c14Step{sa("small", false), sa("small", true)}},
+				{Steps: []c14Step{sa("small", false), {Args: []string{"cache", "purge"}, Aux: true}, sa("small", false), sa("small", false)}},
+				{Steps: []c14Step{sa("small", false), {Args: []string{"cache", "list"}, Aux: true}, sa("small", false)}},
 			} {
 				if !e.try(c) {
 					return
